@@ -100,3 +100,8 @@ reg('C02', 'model_checking', 'G + X (program grid + exhaustive address enumerati
     'Every store / initialisation / call / registration shape of the grid (raw pointers, const pointers, raw function pointers, arrays of raw pointers, wrappers of another sandbox type, plain structs, lambdas, functors, 18 malformed callback signatures) is compiled against the real headers with compile checks ON and must be rejected, while positive controls of the same shapes must compile; assign_raw_pointer (both wrappers) and UNSAFE_accept_pointer are executed for every address of the sandbox region +-4 KiB, null, the other live instance and application memory in mask and registry modes.',
     'Finite shape grammar; g++ (clang++ repeated in the thorough tier).',
     'DESIGN.md section 3, C02')
+
+reg('C20', 'exploration', 'G + X (cast acceptance grid + exhaustive value enumeration)', 'compile-probe grid over cast x wrapper x type pairs + bounded exhaustive differential evaluation of every accepted cast and of the opaque round trip',
+    'Every (cast, wrapper, source type, target type) combination is a probe program: accepted casts must return exactly tainted<Target> and correspond to a well-formed C++ cast; each accepted cast is executed on boundary values (for pointers: the first/last 256 offsets and a stride through a 64 KiB sandbox) and compared bit for bit with the plain C++ cast, designated address and guest representation unchanged; from_opaque(to_opaque(t)) is compared byte for byte for every supported type.',
+    'Value domains are boundary lattices for wide types; floating sources restricted to values with defined conversions; opaque arguments/results are covered under C11/C12.',
+    'DESIGN.md section 3, C20')
